@@ -34,8 +34,8 @@ type MemStore struct {
 	Log     []Mutation
 	LogOn   bool
 	StepRef *int // optional logical step counter stamped into logged mutations
-	OpCount int // reads + writes + removes seen so far (for fault positions)
-	FailAt  int // 1-based operation index that fails once; 0 = none
+	OpCount int  // reads + writes + removes seen so far (for fault positions)
+	FailAt  int  // 1-based operation index that fails once; 0 = none
 	FailHit bool
 	FailOp  string
 	// FailOnlyOps restricts injected faults to these op kinds when non-empty ("read","write","remove").
